@@ -477,7 +477,7 @@ impl Prop for OpsProp {
         (mixed_spec(tier.pick(12, 24)), 0u8..RECREATES.len() as u8, any::<u64>(), prop::collection::vec(op_strategy(), 1..=tier.pick(12, 40)), prop_oneof![3 => Just(vec![]), 1 => prop::collection::vec(any::<u16>(), 24)]).prop_map(|(spec, initial, seed, ops, relations)| OpsCase { spec, initial, seed, ops, relations }).boxed()
     }
     fn cases(&self, tier: Tier) -> u32 {
-        tier.pick(12_000, 100_000)
+        tier.pick(12_000, 50_000)
     }
     fn shards(&self, _tier: Tier) -> u32 {
         16
